@@ -258,6 +258,42 @@ func init() {
 			}
 		}})
 
+	register(&Rule{ID: "C16.immutable", Props: []string{"C16"}, Floor: 3,
+		Doc: "nothing in the call tree of an asset update writes the fields an update must preserve, moves custody or rewrites the module parameters",
+		Run: func(e *Engine, r *RuleRun) {
+			preserved := map[string]bool{"AllianceAsset.TotalTokens": true, "AllianceAsset.TotalValidatorShares": true, "AllianceAsset.Denom": true, "AllianceAsset.RewardStartTime": true, "AllianceAsset.IsInitialized": true}
+			for _, entry := range []string{"keeper.Keeper.UpdateAllianceAsset", "keeper.MsgServer.UpdateAlliance", "keeper.Keeper.UpdateAlliance"} {
+				fn := r.Need(entry)
+				if fn == nil {
+					continue
+				}
+				bad := 0
+				nAtoms := 0
+				for _, f := range e.Reach(fn) {
+					for _, a := range e.DirectAtoms(f) {
+						nAtoms++
+						switch {
+						case a.Kind == "fieldwrite" && preserved[a.Name]:
+							if st, ok := a.Instr.(*ssa.Store); ok && isInitStore(e.FA(f), st) {
+								continue
+							}
+							bad++
+							r.Bad(entry, "call tree writes "+a.Name, "an asset update reaches a write of "+a.Name+" (in "+FuncKey(f)+"): an update must never alter the staked total, share total, denom, start time or initialisation flag", nil, r.P(a.Instr))
+						case a.Kind == "bank" && (strings.Contains(a.Name, "(alliance->") || strings.Contains(a.Name, "MintCoins") || strings.Contains(a.Name, "BurnCoins")):
+							bad++
+							r.Bad(entry, "call tree moves custody: "+a.Name, "an asset update reaches a bank call that moves coins out of the custody account / mints / burns (in "+FuncKey(f)+")", nil, r.P(a.Instr))
+						case a.Kind == "store" && (a.Name == "Set(ParamsKey)" || strings.HasPrefix(a.Name, "Delete(GetAssetKey")):
+							bad++
+							r.Bad(entry, "call tree writes "+a.Name, "an asset update reaches "+a.Name+" (in "+FuncKey(f)+"): the module parameters (take-rate clock) and the asset's existence are not part of an update", nil, r.P(a.Instr))
+						}
+					}
+				}
+				if bad == 0 {
+					r.OK(entry, "call tree preserves totals, denom, start time, custody and parameters", fmt.Sprintf("%d effect atoms in the call tree examined", nAtoms), e.Pos(fn.Pos()))
+				}
+			}
+		}})
+
 	register(&Rule{ID: "C16.delete", Props: []string{"C16"}, Floor: 4,
 		Doc: "an asset is deleted only while nothing is staked in it",
 		Run: func(e *Engine, r *RuleRun) {
